@@ -19,7 +19,7 @@ func genEmptyTree(g *vlib.G) {
 		ps := pairs(n, true)
 		odometer(len(ps), 2, func(idx int, digits []int) bool {
 			d := append([]int(nil), digits...)
-			g.Case(fmt.Sprintf("n=%d dir e=%s", n, digitString(d, alphaOne)), func(t *vlib.T) {
+			gcase(g, fmt.Sprintf("n=%d dir e=%s", n, digitString(d, alphaOne)), func(t *vlib.T) {
 				r := newRef(specFromDigits(n, true, ps, d, alphaOne))
 				for _, kind := range []int{kSimpleAsc, kMultiSum, kTrav, kUSimple, kUTrav} {
 					for idk := 0; idk < 3; idk++ {
@@ -74,7 +74,7 @@ func genBFNeg(g *vlib.G) {
 	ps := pairs(3, true)
 	odometer(len(ps), len(alphaA)+1, func(idx int, digits []int) bool {
 		d := append([]int(nil), digits...)
-		g.Case("n=3 dir w="+digitString(d, alphaA), func(t *vlib.T) {
+		gcase(g, "n=3 dir w="+digitString(d, alphaA), func(t *vlib.T) {
 			r := newRef(specFromDigits(3, true, ps, d, alphaA))
 			if !r.anyNeg {
 				t.Outcome("no negative cycle")
@@ -101,7 +101,7 @@ func genFWNeg(g *vlib.G) {
 	ps := pairs(3, true)
 	odometer(len(ps), len(alphaA)+1, func(idx int, digits []int) bool {
 		d := append([]int(nil), digits...)
-		g.Case("n=3 dir w="+digitString(d, alphaA), func(t *vlib.T) {
+		gcase(g, "n=3 dir w="+digitString(d, alphaA), func(t *vlib.T) {
 			r := newRef(specFromDigits(3, true, ps, d, alphaA))
 			if !r.anyNeg {
 				t.Outcome("no negative cycle")
@@ -139,7 +139,7 @@ func genDg4Neg(g *vlib.G) {
 	head := len(ps) - tail
 	odometer(head, radix, func(bidx int, hd []int) bool {
 		h := append([]int(nil), hd...)
-		g.Case(fmt.Sprintf("n=4 dir w=%s+%d", digitString(h, alphaNeg), tail), func(t *vlib.T) {
+		gcase(g, fmt.Sprintf("n=4 dir w=%s+%d", digitString(h, alphaNeg), tail), func(t *vlib.T) {
 			digits := make([]int, len(ps))
 			copy(digits, h)
 			nneg := 0
@@ -250,13 +250,13 @@ func (c *ctx) cutQueries() int {
 							c.classed(classCut, sm.name, s, t, "with a zero-weight cycle among the shortest-path predecessors: path %s (edge weights sum to %v) returned with weight %v (sample %d)", ids(p), pwt, w, i)
 							hit = true
 						}
-						c.t.Count("cut_samples", 1)
+						c.count("cut_samples", 1)
 					}
 					if hit {
 						c.t.Max("cut_max_samples_needed", int64(nsamp))
-						c.t.Count("cut_queries_confirmed", 1)
+						c.count("cut_queries_confirmed", 1)
 					} else {
-						c.t.Count("cut_queries_not_observed_in_samples", 1)
+						c.count("cut_queries_not_observed_in_samples", 1)
 					}
 				}
 			}
@@ -266,7 +266,7 @@ func (c *ctx) cutQueries() int {
 	if c.sp.directed {
 		kind = "directed"
 	}
-	c.t.Count(fmt.Sprintf("cut_queries_flagged (n=%d %s)", n, kind), int64(flagged))
+	c.count(fmt.Sprintf("cut_queries_flagged (n=%d %s)", n, kind), int64(flagged))
 	return flagged
 }
 
@@ -292,7 +292,7 @@ func genZeroCut(g *vlib.G) {
 	ps3 := pairs(3, true)
 	odometer(len(ps3), len(alphaA)+1, func(idx int, digits []int) bool {
 		d := append([]int(nil), digits...)
-		g.Case("n=3 dir w="+digitString(d, alphaA), func(t *vlib.T) {
+		gcase(g, "n=3 dir w="+digitString(d, alphaA), func(t *vlib.T) {
 			one(t, newRef(specFromDigits(3, true, ps3, d, alphaA)), idx)
 		})
 		return !g.Stopped()
@@ -302,7 +302,7 @@ func genZeroCut(g *vlib.G) {
 		ps := pairs(n, false)
 		odometer(len(ps), len(alphaBFull)+1, func(idx int, digits []int) bool {
 			d := append([]int(nil), digits...)
-			g.Case(fmt.Sprintf("n=%d und w=%s", n, digitString(d, alphaBFull)), func(t *vlib.T) {
+			gcase(g, fmt.Sprintf("n=%d und w=%s", n, digitString(d, alphaBFull)), func(t *vlib.T) {
 				one(t, newRef(specFromDigits(n, false, ps, d, alphaBFull)), idx)
 			})
 			return !g.Stopped()
@@ -315,7 +315,7 @@ func genZeroCut(g *vlib.G) {
 		alpha0 := []float64{0}
 		odometer(len(ps), 2, func(idx int, digits []int) bool {
 			d := append([]int(nil), digits...)
-			g.Case("n=5 und w="+digitString(d, alpha0), func(t *vlib.T) {
+			gcase(g, "n=5 und w="+digitString(d, alpha0), func(t *vlib.T) {
 				r := newRef(specFromDigits(5, false, ps, d, alpha0))
 				if !thorough && idx%2 == 0 {
 					// quick: the model on every graph, sampling on every second
@@ -346,7 +346,7 @@ func genZeroCut(g *vlib.G) {
 		}
 		odometer(head, radix, func(bidx int, hd []int) bool {
 			h := append([]int(nil), hd...)
-			g.Case(fmt.Sprintf("n=%d %s w=%s+%d", n, kind, digitString(h, alpha01), tail), func(t *vlib.T) {
+			gcase(g, fmt.Sprintf("n=%d %s w=%s+%d", n, kind, digitString(h, alpha01), tail), func(t *vlib.T) {
 				digits := make([]int, len(ps))
 				copy(digits, h)
 				fl := 0
@@ -413,7 +413,7 @@ func genSelfLoop(g *vlib.G) {
 					if lidx == 0 {
 						return true // no self loop at all: covered elsewhere
 					}
-					g.Case(fmt.Sprintf("n=%d %s w=%s loops=%s", n, kind, digitString(d, alpha), digitString(l, alphaB)), func(t *vlib.T) {
+					gcase(g, fmt.Sprintf("n=%d %s w=%s loops=%s", n, kind, digitString(d, alpha), digitString(l, alphaB)), func(t *vlib.T) {
 						sp := specFromDigits(n, directed, ps, d, alpha)
 						for i, v := range l {
 							if v > 0 {
